@@ -955,18 +955,27 @@ def tree_stats(goals, mode):
     return nodes, depth
 
 
-def prem_facts(n):
-    return [json.dumps(c.get("fact"), sort_keys=True) for c in n.get("prem") or []]
+KIND_CLASS = {"edb": "leaf", "absence": "absent", "derived": "inner", "let": "inner"}
 
 
-def alt_findings(goals, modes, st=None):
-    """ORACLE on Go's own output (not the Coq observer; implied by it for accepted proofs, see
-    Prov/SeededProofs.v alternatives_bindings_agree): the alternatives returned for ONE goal that
-    instantiate the same rule and report DIFFERENT bindings must have different premise facts -
-    every reported variable is an argument of the head or of a positive body atom
-    (provenance.collectVars), the head is the goal in all of them, so a differing variable shows
-    in a premise. Also fills the coverage counters of st: pairs of alternatives of one rule by
-    (number of premises, first position at which the premise facts differ)."""
+def prem_heads(n):
+    """kind class and fact of the premise nodes = map head_of prems of Prov/ProofTree.v"""
+    return [json.dumps([KIND_CLASS.get(c["k"], "other"), c.get("fact")], sort_keys=True) for c in n.get("prem") or []]
+
+
+def pos_atom_vars(c):
+    """variables that are (direct) arguments of a positive body atom of the clause"""
+    return set(t[1] for l in c["body"] if l[0] == "atom" for t in l[1]["args"] if t[0] == "var")
+
+
+def alt_findings(prog, goals, modes, st=None):
+    """ORACLE on Go's own output, beside the Coq observer (which judges every alternative on its
+    own): two alternatives returned for ONE goal that instantiate the same rule, carry the same
+    premises (kinds and facts) and report DIFFERENT values for a variable that is an argument of
+    a positive body atom. Prov/SeededProofs.v alternatives_bindings_agree: two accepted nodes
+    never do, so a finding means at least one of the two is not a valid derivation. Also fills the
+    coverage counters of st: pairs of alternatives of one rule by (number of premises, first
+    position at which the premises differ)."""
     bad = []
     for g in goals:
         for mode in modes:
@@ -976,20 +985,24 @@ def alt_findings(goals, modes, st=None):
             for a in range(len(ps)):
                 for b in range(a + 1, len(ps)):
                     x, y = ps[a], ps[b]
-                    if x["ri"] != y["ri"] or x["ri"] < 0:
+                    if x["ri"] != y["ri"] or not 0 <= x["ri"] < len(prog["clauses"]):
                         continue
-                    fx, fy = prem_facts(x), prem_facts(y)
+                    fx, fy = prem_heads(x), prem_heads(y)
                     if st is not None and len(fx) == len(fy):
                         d = next((k for k in range(len(fx)) if fx[k] != fy[k]), -1)
                         key = "%s premises=%d first_difference=%s" % (mode, len(fx), "none" if d < 0 else str(d + 1))
                         st["alt_pairs"][key] = st["alt_pairs"].get(key, 0) + 1
                         if len(fx) >= 4 and d >= 3:
                             st["alt_same_prefix3"][mode] += 1
-                    if has_partial(x) or has_partial(y):
+                    if has_partial(x) or has_partial(y) or fx != fy:
                         continue
-                    if (x.get("b") or []) != (y.get("b") or []) and fx == fy:
+                    bx, by = ({v: json.dumps(c, sort_keys=True) for v, c in n.get("b") or []} for n in (x, y))
+                    vs = ["V%d" % v for v in sorted(pos_atom_vars(prog["clauses"][x["ri"]]))]
+                    diff = [v for v in vs if v in bx and v in by and bx[v] != by[v]]
+                    if diff:
                         bad.append({"kind": "alternatives with different bindings but the same premises", "mode": mode,
-                                    "goal": g["fact"], "rule": x.get("rule"), "bindings": [x.get("b"), y.get("b")],
+                                    "goal": g["fact"], "rule": x.get("rule"), "variables": diff,
+                                    "bindings": [x.get("b"), y.get("b")],
                                     "premises": [c.get("fact") for c in x.get("prem") or []], "ids": [x["id"], y["id"]]})
     return bad
 
@@ -1080,7 +1093,7 @@ def evaluate(ck, progs, optss, origin, ref_every=4):
     st = {"stage": {}, "goals": 0, "proofs": {"posthoc": 0, "recorded": 0}, "noproof": {"posthoc": 0, "recorded": 0},
           "nodes": 0, "max_depth": 0, "ids": 0, "ref_runs": 0, "rule_mismatch": 0, "store_diff": 0, "partial_proofs": 0,
           "tba_nodes": {"posthoc": 0, "recorded": 0}, "alt_goals": {"posthoc": 0, "recorded": 0}, "alt_pairs": {},
-          "alt_same_prefix3": {"posthoc": 0, "recorded": 0}, "alt_bad": 0}
+          "alt_same_prefix3": {"posthoc": 0, "recorded": 0}, "alt_bad": 0, "alt_reports": []}
     for i, o in enumerate(outs):
         rep0 = {"property": "C15", "origin": origin[i], "program": progs[i], "opts": optss[i], "src": go_cases[i]["src"],
                 "pre": go_cases[i]["pre"]}
@@ -1109,12 +1122,14 @@ def evaluate(ck, progs, optss, origin, ref_every=4):
             st["ids"] += nids
             if bad and len(ck.violations) < 5:
                 ck.violation(dict(rep0, kind="proof identifiers are not a function of proof content", findings=bad[:3]))
-            abad = alt_findings(goals, optss[i]["modes"], st)
+            abad = alt_findings(progs[i], goals, optss[i]["modes"], st)
             st["alt_bad"] += len(abad)
-            if abad and len(ck.violations) < 5:
-                ck.violation(dict(rep0, kind="alternative proofs of one goal instantiate one rule under different bindings but "
-                                  "have the same premises (oracle on Go's output: the premises are not the body literals under "
-                                  "the reported bindings in at least one of them)", findings=abad[:3]))
+            if abad:
+                # reported by the caller AFTER the verdicts of the Coq observer
+                st["alt_reports"].append(dict(rep0, kind="alternative proofs of one goal instantiate one rule under different "
+                                              "bindings but have the same premises (ORACLE on Go's output, backed by Prov/SeededProofs.v "
+                                              "alternatives_bindings_agree: the premises are not the body literals under the reported "
+                                              "bindings in at least one of them)", findings=abad[:3]))
             entries, idx = [], []
             for mode in optss[i]["modes"]:
                 need = need_complete(progs[i], optss[i], mode)
@@ -1245,6 +1260,9 @@ def run(ck):
                       "goal": goal["fact"], "go": goal[mode], "complete_proof_owed": need,
                       "why_violation": "Props/C15.v check_proof_exact: check_proof accepts exactly the valid acyclic "
                                        "derivations; proof_exists: every fact of the least model has one"})
+    for k, rep in enumerate(st["alt_reports"]):
+        if k == 0 or len(ck.violations) < 5:
+            ck.violation(rep)
     probes(ck)
     n_tba_progs = sum(1 for p in progs if any(recursive_tba(p, c) for c in p["clauses"]))
     if st["tba_nodes"]["recorded"] < 20 and len(progs) >= 100 and not ck.violations:
@@ -1291,8 +1309,9 @@ def run(ck):
                             "pairs_with_4_or_more_premises_agreeing_on_the_first_3": st["alt_same_prefix3"],
                             "oracle_different_bindings_same_premises": st["alt_bad"],
                             "judged": "EVERY returned alternative is judged by check_proof (judge_goal: existsb over all proofs); "
-                                      "in addition the oracle alt_findings (Go output only): alternatives of one rule with "
-                                      "different bindings have different premise facts"},
+                                      "in addition the ORACLE alt_findings (Go output only): alternatives of one rule with the same "
+                                      "premises agree on every variable of a positive body atom (SeededProofs.v "
+                                      "alternatives_bindings_agree: accepted nodes always do)"},
            "exhaustive_blocks": exh_blocks,
            "exhaustive": nexh > 0,
            "exhaustive_scope": ("(1) every clause order (all permutations) of the ring programs p1 :- p2, .., pn :- p1, p1 :- p0, "
